@@ -245,3 +245,12 @@ func TestFindingF16WSBeforeComma(t *testing.T) {
 		}
 	}
 }
+
+func TestFindingF17StalePortAccumulator(t *testing.T) {
+	for s, want := range map[string]uint16{"sip:[a]:1;a@a:1": 1, "sip:[::1]:5060;x@h:5070": 5070} {
+		var u sipsp.PsipURI
+		if e, _ := sipsp.ParseURI([]byte(s), &u); e != 0 || u.PortNo != want {
+			t.Errorf("%q: err=%v PortNo=%d want %d", s, e, u.PortNo, want)
+		}
+	}
+}
